@@ -309,11 +309,11 @@ static void nextSeeded(const char* cls, unsigned long long a0, size_t nn, size_t
 	word* a = (word*)xalloc(O_OF_W(nn)); word* q = (word*)xalloc(O_OF_W(nn)); void* st2 = xalloc(priNextPrime_deep(nn, bc));
 	for (j = 0; j < 8; ++j) b[j] = (octet)(a0 >> (8 * j));
 	p[0] = 0; r = priNextPrimeW(p, (word)a0, st); free(st);
-	jBegin(); jStr("op", "nextPrime"); jStr("cls", cls); jStr("f", "priNextPrimeW"); jOct("a", b, 8); jInt("n", 0); putNum("p", p, 1);
+	jBegin(); jStr("op", "nextPrime"); jStr("cls", cls); jStr("f", "priNextPrimeW"); jOct("a", b, 8); jInt("w", 1); putNum("p", p, 1);
 	jInt("found", r); jInt("hang", 0); jEnd();
 	memset(a, 0, O_OF_W(nn)); memset(q, 0, O_OF_W(nn)); a[0] = (word)a0;
 	r = priNextPrime(q, a, nn, SIZE_MAX, bc, 20, st2);
-	jBegin(); jStr("op", "nextPrime"); jStr("cls", cls); jStr("f", "priNextPrime"); jOct("a", b, 8); jInt("n", (long long)nn); jInt("base", (long long)bc);
+	jBegin(); jStr("op", "nextPrime"); jStr("cls", cls); jStr("f", "priNextPrime"); jOct("a", b, 8); jInt("nwords", (long long)nn); jInt("base", (long long)bc);
 	putNum("p", q, nn); jInt("found", r); jInt("hang", 0); jEnd();
 	free(st2); free(q); free(a);
 }
@@ -424,6 +424,12 @@ static size_t lst(unsigned long long* dst, size_t cap, const vx_cmd* c, const ch
 	if (!v) return 0;
 	while (*v && n < cap) { dst[n++] = strtoull(v, (char**)&v, 10); if (*v == ',') ++v; }
 	return n;
+}
+/* number of words of the operand: the length of its hex argument (octets, zero octets included), at least one word */
+static size_t numWords(const vx_cmd* c, const char* k)
+{
+	const char* v = vxArg(c, k); size_t no = v ? (strlen(v) - (*v == 'x')) / 2 : 0; size_t n = W_OF_O(no);
+	return n ? n : 1;
 }
 static word* numArg(const vx_cmd* c, const char* k, size_t n)
 {
@@ -581,36 +587,35 @@ static void doExecLine(vx_cmd* c)
 	}
 	else if (strcmp(op, "isPrime") == 0)
 	{
-		/* a = number, n = length in words handed to priIsPrime (0: priIsPrimeW) */
-		size_t n = (size_t)vxInt(c, "n", 1);
-		if (n == 0) { word* a = numArg(c, "a", 1); jInt("res", isPrimeW(a[0])); free(a); }
+		/* a = number; its argument length is the operand length handed to priIsPrime; w=1: priIsPrimeW (one machine word) */
+		size_t n = numWords(c, "a");
+		if (vxInt(c, "w", 0)) { word* a = numArg(c, "a", 1); jInt("res", isPrimeW(a[0])); free(a); }
 		else { word* a = numArg(c, "a", n); jInt("res", isPrimeN(a, n)); free(a); }
-		jInt("W", B_PER_W);
 	}
 	else if (strcmp(op, "rmTest") == 0)
 	{
-		size_t n = (size_t)vxInt(c, "n", 1); size_t iter = (size_t)vxInt(c, "iter", 0); word* a = numArg(c, "a", n);
+		size_t n = numWords(c, "a"); size_t iter = (size_t)vxInt(c, "iter", 0); word* a = numArg(c, "a", n);
 		void* st = xalloc(priRMTest_deep(n)); jInt("res", priRMTest(a, n, iter, st)); free(st); free(a);
 	}
 	else if (strcmp(op, "sgPrime") == 0)
 	{
-		size_t n = (size_t)vxInt(c, "n", 1); word* a = numArg(c, "a", n);
+		size_t n = numWords(c, "a"); word* a = numArg(c, "a", n);
 		void* st = xalloc(priIsSGPrime_deep(n)); jInt("res", priIsSGPrime(a, n, st)); free(st); free(a);
 	}
 	else if (strcmp(op, "nextPrime") == 0)
 	{
-		size_t n = (size_t)vxInt(c, "n", 1); size_t bc = (size_t)vxInt(c, "base", 0); size_t iter = (size_t)vxInt(c, "iter", 32);
+		size_t n = numWords(c, "a"); size_t bc = (size_t)vxInt(c, "base", 0); size_t iter = (size_t)vxInt(c, "iter", 32);
 		long long tr = vxInt(c, "trials", -1); word* a = numArg(c, "a", n); word* p = (word*)xalloc(O_OF_W(n));
 		void* st = xalloc(priNextPrime_deep(n, bc)); int r = 0;
 		memset(p, 0, O_OF_W(n));
-		if (n == 0) { free(p); p = (word*)xalloc(sizeof(word)); p[0] = 0; free(st); st = xalloc(priNextPrimeW_deep()); GUARDED(20, r = priNextPrimeW(p, a[0], st), hung); putNum("p", p, 1); }
+		if (vxInt(c, "w", 0)) { free(p); p = (word*)xalloc(sizeof(word)); p[0] = 0; free(st); st = xalloc(priNextPrimeW_deep()); GUARDED(20, r = priNextPrimeW(p, a[0], st), hung); putNum("p", p, 1); }
 		else { GUARDED(60, r = priNextPrime(p, a, n, tr < 0 ? SIZE_MAX : (size_t)tr, bc, iter, st), hung); putNum("p", p, n); }
-		jInt("found", r); jInt("hang", hung); jInt("W", B_PER_W);
+		jInt("found", r); jInt("hang", hung);
 		if (!hung) { free(st); free(p); free(a); }
 	}
 	else if (strcmp(op, "sieved") == 0 || strcmp(op, "smooth") == 0)
 	{
-		size_t n = (size_t)vxInt(c, "n", 1); size_t bc = (size_t)vxInt(c, "base", 0); word* a = numArg(c, "a", n); int r = 0;
+		size_t n = numWords(c, "a"); size_t bc = (size_t)vxInt(c, "base", 0); word* a = numArg(c, "a", n); int r = 0;
 		if (bc > priBaseSize()) bc = priBaseSize();
 		if (op[1] == 'i') { void* st = xalloc(priIsSieved_deep(bc)); r = priIsSieved(a, n, bc, st); free(st); }
 		else { void* st = xalloc(priIsSmooth_deep(n)); GUARDED(5, r = priIsSmooth(a, n, bc, st), hung); if (!hung) free(st); }
@@ -625,7 +630,7 @@ static void doExecLine(vx_cmd* c)
 	}
 	else if (strcmp(op, "ppIrred") == 0)
 	{
-		size_t n = (size_t)vxInt(c, "n", 1); word* a = numArg(c, "a", n); void* st = xalloc(ppIsIrred_deep(n));
+		size_t n = numWords(c, "a"); word* a = numArg(c, "a", n); void* st = xalloc(ppIsIrred_deep(n));
 		jInt("res", ppIsIrred(a, n, st)); free(st); free(a);
 	}
 	else if (strcmp(op, "onA") == 0)
